@@ -110,15 +110,16 @@ func (m *Mutex) Unlock() {
 /* ---- RWMutex ---- */
 
 type RWMutex struct {
-	real    rsync.RWMutex
-	writer  bool
-	readers int
-	ep      uint64
+	real     rsync.RWMutex
+	writer   bool
+	readers  int
+	waitingW int // writers that have called Lock and wait: like the real RWMutex, they block NEW readers
+	ep       uint64
 }
 
 func (m *RWMutex) sync() {
 	if m.ep != epoch {
-		m.writer, m.readers, m.ep = false, 0, epoch
+		m.writer, m.readers, m.waitingW, m.ep = false, 0, 0, epoch
 	}
 }
 
@@ -128,8 +129,14 @@ func (m *RWMutex) Lock() {
 		return
 	}
 	VerifOps.Add(1)
-	Sched.Block("RWMutex.Lock", func() bool { m.sync(); return !m.writer && m.readers == 0 })
+	// two steps, as in the real implementation: the writer announces itself (from then on no new
+	// reader is admitted - a goroutine that read-locks recursively deadlocks behind it), then waits
+	Sched.Point("RWMutex.Lock")
 	m.sync()
+	m.waitingW++
+	Sched.Block("RWMutex.Lock(wait)", func() bool { m.sync(); return !m.writer && m.readers == 0 })
+	m.sync()
+	m.waitingW--
 	m.writer = true
 }
 
@@ -166,7 +173,7 @@ func (m *RWMutex) RLock() {
 		return
 	}
 	VerifOps.Add(1)
-	Sched.Block("RWMutex.RLock", func() bool { m.sync(); return !m.writer })
+	Sched.Block("RWMutex.RLock", func() bool { m.sync(); return !m.writer && m.waitingW == 0 })
 	m.sync()
 	m.readers++
 }
@@ -178,7 +185,7 @@ func (m *RWMutex) TryRLock() bool {
 	VerifOps.Add(1)
 	Sched.Point("RWMutex.TryRLock")
 	m.sync()
-	if m.writer {
+	if m.writer || m.waitingW > 0 {
 		return false
 	}
 	m.readers++
